@@ -3,8 +3,11 @@ package checks
 import (
 	"fmt"
 	"math"
+	"runtime"
+	"sort"
 	"strings"
 	"sync"
+	"sync/atomic"
 	"time"
 
 	"github.com/nuetzliches/hookaido/verifharness/l2"
@@ -264,6 +267,99 @@ admin_api { listen 127.0.0.3:0 }
 		}
 		if li < 3 {
 			c.Sample(map[string]any{"limiter_config": cfg, "requests": len(hist)})
+		}
+	}
+	c12RateMoving(c, dir)
+}
+
+// c12RateMoving: request goroutines race with a clock that keeps moving, so the
+// instants at which requests read the clock and the order in which they reach
+// the bucket differ (a reading may be older than one the bucket has already
+// seen). Every admitted request is bracketed by the clock values before the
+// call and after the reply; for every window [A,B] the admitted requests whose
+// bracket lies inside it number at most burst + rps*(B-A).
+func c12RateMoving(c *vlib.Ctx, dir string) {
+	n := c.N(10, 200)
+	for li := 0; li < n; li++ {
+		r := vlib.Derive(c.Seed, "C12moving", li)
+		rps := vlib.Pick(r, []float64{2, 20, 200})
+		burst := vlib.Pick(r, []int{1, 5, 20})
+		cfg := fmt.Sprintf("ingress { listen 127.0.0.1:0 }\npull_api { listen 127.0.0.2:0\n auth token raw:tok }\nadmin_api { listen 127.0.0.3:0 }\n/lim { queue { backend memory }\n rate_limit { rps %g\n burst %d }\n pull { path /pull/lim } }\n", rps, burst)
+		clock := vlib.NewVClock(vlib.Epoch)
+		a, err := l2.Start(dir, cfg, nil, clock)
+		if err != nil {
+			c.Inconclusive("C12 moving-clock config did not start: " + err.Error())
+			return
+		}
+		// stale readings: some callers are held up between reading the clock and using it
+		var reads atomic.Int64
+		clock.SetAfterRead(func() {
+			if reads.Add(1)%3 == 0 {
+				time.Sleep(150 * time.Microsecond)
+			} else {
+				runtime.Gosched()
+			}
+		})
+		type br struct{ t0, t1 int64 }
+		var mu sync.Mutex
+		var adm []br
+		total := 0
+		var stop atomic.Bool
+		var tick sync.WaitGroup
+		tick.Add(1)
+		step := time.Duration(r.Range(20, 2000)) * time.Microsecond
+		go func() {
+			defer tick.Done()
+			for !stop.Load() {
+				clock.Advance(step)
+				runtime.Gosched()
+			}
+		}()
+		var wg sync.WaitGroup
+		workers, per := r.Range(4, 32), r.Range(20, 80)
+		for g := 0; g < workers; g++ {
+			wg.Add(1)
+			go func() {
+				defer wg.Done()
+				for i := 0; i < per; i++ {
+					req, _ := l2.NewRequest("POST", "/lim", []byte("x"), "")
+					t0 := clock.NowNS()
+					resp := l2.Do(a.Ingress, req)
+					t1 := clock.NowNS()
+					mu.Lock()
+					total++
+					if resp.Status == 202 {
+						adm = append(adm, br{t0, t1})
+					}
+					mu.Unlock()
+				}
+			}()
+		}
+		wg.Wait()
+		stop.Store(true)
+		tick.Wait()
+		clock.SetAfterRead(nil)
+		a.Close()
+		c.Count("evaluations", int64(total))
+		c.Count("moving_clock_requests", int64(total))
+		c.Count("moving_clock_admitted", int64(len(adm)))
+		c.Distinct("nontrivial", fmt.Sprintf("rate_moving:rps=%g:burst=%d:admitted=%s", rps, burst, cmpClass(len(adm), burst)))
+		sort.Slice(adm, func(i, j int) bool { return adm[i].t0 < adm[j].t0 })
+	outer:
+		for i := range adm {
+			hi := adm[i].t1
+			for j := i; j < len(adm); j++ {
+				if adm[j].t1 > hi {
+					hi = adm[j].t1
+				}
+				win := float64(hi-adm[i].t0) / 1e9
+				if bound := float64(burst) + rps*win + 1e-6; float64(j-i+1) > bound {
+					c.Violation(vlib.Signature{"class": "rate_window_exceeded", "limiter": "/lim", "clock": "moving"},
+						fmt.Sprintf("limiter rps=%g burst=%d admitted %d requests whose clock readings all lie within %.6fs (bound %.3f) while the clock was moving under %d concurrent senders", rps, burst, j-i+1, win, bound, workers),
+						map[string]any{"config": cfg, "first_t0": adm[i].t0, "last_t1": hi})
+					break outer
+				}
+			}
 		}
 	}
 }
